@@ -172,7 +172,7 @@ pub struct RunOut {
 /// Execute one run: a pure function of (profile, choice source, code under test).
 pub fn run_one(prof: &Profile, mut ch: Chooser, st: &mut Stats, known: &Known, want_trace: bool) -> RunOut {
     let cfg = crate::cfg::draw(&mut ch, prof);
-    ch.cfg_end = ch.rec.len() as u32;
+    ch.cfg_end = ch.marks.len() as u32;
     if cfg.fault_free {
         st.runs_fault_free += 1;
     } else {
